@@ -452,6 +452,9 @@ func (a *An) gateTerms1(v ssa.Value, truth bool, d int) []string {
 		}
 	case *ssa.BinOp:
 		l, r := resolveLocal(x.X), resolveLocal(x.Y)
+		if t := a.threeWay(x.Op, l, r, truth); t != "" {
+			return []string{t}
+		}
 		switch x.Op {
 		case token.EQL, token.NEQ:
 			isEq := (x.Op == token.EQL) == truth
@@ -837,51 +840,63 @@ func genEraseSites(a *An) {
 // passed as a literal is part of what the function does; a renamed or newly named constant of the same value reads
 // the same.
 
-func (a *An) currentConstArgs() map[string][]string {
-	out := map[string][]string{}
-	for _, f := range a.C.FuncSeq {
-		if f.Blocks == nil {
-			continue
-		}
-		o := a.C.alias(a.C.owner(f))
-		for _, b := range f.Blocks {
-			for _, in := range b.Instrs {
-				switch x := in.(type) {
-				case ssa.CallInstruction:
-					com := x.Common()
-					name := ""
-					if sc := com.StaticCallee(); sc != nil {
-						name = a.C.alias(sc)
-						if a.C.isNew(sc) && sc.Pkg == f.Pkg {
-							continue // the constants a new helper is given show up where the helper uses them
+func (a *An) constArgsOf(f *ssa.Function, depth int, stack map[*ssa.Function]bool, into *[]string) {
+	for _, b := range f.Blocks {
+		for _, in := range b.Instrs {
+			switch x := in.(type) {
+			case ssa.CallInstruction:
+				com := x.Common()
+				name := ""
+				if sc := com.StaticCallee(); sc != nil {
+					if a.C.isNew(sc) && sc.Blocks != nil {
+						// the constants a new helper hands on count where the helper is called from; the constants it is
+						// given show up where it uses them
+						if depth < 3 && !stack[sc] {
+							stack[sc] = true
+							a.constArgsOf(sc, depth+1, stack, into)
+							delete(stack, sc)
 						}
-					} else if bi, ok := com.Value.(*ssa.Builtin); ok {
-						name = bi.Name()
-					} else if com.IsInvoke() {
-						name = typeName(com.Value.Type()) + "." + com.Method.Name()
-					} else {
 						continue
 					}
-					for i, arg := range com.Args {
-						if mi, isMI := arg.(*ssa.MakeInterface); isMI {
-							arg = mi.X
-						}
-						k, ok := arg.(*ssa.Const)
-						if !ok || k.Value == nil || k.Value.Kind() == constant.String {
-							continue // texts of errors and of the debug dump are not behaviour the properties talk about
-						}
-						out[o] = append(out[o], fmt.Sprintf("%s#%d=%s", name, i, constStr(k)))
+					name = a.C.alias(sc)
+				} else if bi, ok := com.Value.(*ssa.Builtin); ok {
+					name = bi.Name()
+				} else if com.IsInvoke() {
+					name = typeName(com.Value.Type()) + "." + com.Method.Name()
+				} else {
+					continue
+				}
+				for i, arg := range com.Args {
+					if mi, isMI := arg.(*ssa.MakeInterface); isMI {
+						arg = mi.X
 					}
-				case *ssa.MakeSlice:
-					if k, ok := x.Len.(*ssa.Const); ok && k.Value != nil {
-						out[o] = append(out[o], "make#len="+constStr(k))
+					k, ok := arg.(*ssa.Const)
+					if !ok || k.Value == nil || k.Value.Kind() == constant.String {
+						continue // texts of errors and of the debug dump are not behaviour the properties talk about
 					}
+					*into = append(*into, fmt.Sprintf("%s#%d=%s", name, i, constStr(k)))
+				}
+			case *ssa.MakeSlice:
+				if k, ok := x.Len.(*ssa.Const); ok && k.Value != nil {
+					*into = append(*into, "make#len="+constStr(k))
 				}
 			}
 		}
 	}
-	for k := range out {
-		sort.Strings(out[k])
+}
+
+func (a *An) currentConstArgs() map[string][]string {
+	out := map[string][]string{}
+	for _, f := range a.C.FuncSeq {
+		if f.Blocks == nil || (a.C.isNew(f) && len(a.CallSites(f)) > 0) {
+			continue
+		}
+		var l []string
+		a.constArgsOf(f, 0, map[*ssa.Function]bool{f: true}, &l)
+		if len(l) > 0 {
+			sort.Strings(l)
+			out[a.C.alias(f)] = l
+		}
 	}
 	return out
 }
@@ -987,14 +1002,21 @@ func (a *An) currentReturns() map[string][]string {
 		if res.Len() == 0 {
 			continue
 		}
-		var l []string
+		// grouped by what is returned: the conditions of all returns of the same constants together (two returns of the
+		// same outcome merged into one, or one split into two, read the same)
+		byRes := map[string]map[string]bool{}
 		for _, e := range a.returnEntries(f, 0) {
-			for _, gs := range a.multiplyMarks(e.gates, 0) {
-				if len(gs) == 0 {
-					continue
+			key := "(" + strings.Join(e.res, ", ") + ")"
+			for _, g := range a.unionMarks(e.gates, 0) {
+				if byRes[key] == nil {
+					byRes[key] = map[string]bool{}
 				}
-				l = append(l, strings.Join(gs, " & ")+" => ("+strings.Join(e.res, ", ")+")")
+				byRes[key][g] = true
 			}
+		}
+		var l []string
+		for key, gs := range byRes {
+			l = append(l, strings.Join(sortedKeys(gs), " & ")+" => "+key)
 		}
 		if len(l) > 0 {
 			sort.Strings(l)
@@ -1401,4 +1423,228 @@ func genBigOps(a *An) {
 		fmt.Printf("\t%q: {%s},\n", k, strings.Join(q, ", "))
 	}
 	fmt.Println("}")
+}
+
+// ---- what every function calls, and with what -------------------------------------------------------------------------
+// frozenCalls: function → the set of calls in it, each as "callee(argument terms)" (builtins and the calls of new helpers
+// excluded: a new helper's own calls count as its owner's). A different function called (a sibling with the same
+// signature: another hash, another comparison, the variable-time instead of the constant-time exponentiation), or the
+// same function called with a different value (the wrong one of two key ids, the other party's public value), reads
+// differently; renaming, hoisting a sub-expression, calling twice instead of once, or moving code into a helper does not.
+
+func (a *An) callsOf(f *ssa.Function, depth int, stack map[*ssa.Function]bool, into map[string]bool) {
+	for _, b := range f.Blocks {
+		for _, in := range b.Instrs {
+			call, ok := in.(ssa.CallInstruction)
+			if !ok {
+				continue
+			}
+			com := call.Common()
+			if _, isB := com.Value.(*ssa.Builtin); isB {
+				continue
+			}
+			name := ""
+			var recv string
+			if sc := com.StaticCallee(); sc != nil {
+				if a.C.isNew(sc) && sc.Blocks != nil {
+					// the calls inside a new helper count as calls of whoever calls the helper
+					if depth < 3 && !stack[sc] {
+						stack[sc] = true
+						restore := a.bindArgs(sc, call)
+						a.callsOf(sc, depth+1, stack, into)
+						restore()
+						delete(stack, sc)
+					}
+					continue
+				}
+				if sc.Pkg != nil && (sc.Pkg.Pkg.Path() == "fmt" || sc.Pkg.Pkg.Path() == "bufio") {
+					continue // texts of errors and of the debug dump
+				}
+				if erasePrims[sc.Name()] && sc.Signature.Recv() == nil && len(com.Args) > 0 && freshLocal(com.Args[0], 0) {
+					continue // erasing a buffer the function made itself (see W.erase-sites)
+				}
+				if inner := forwarder(sc); inner != nil && depth < 3 {
+					// a function that only hands on to another one reads as the call it makes
+					restore := a.bindArgs(sc, call)
+					ic := inner.Common()
+					var iargs []string
+					for _, arg := range ic.Args {
+						iargs = append(iargs, a.C.Term(resolveLocal(arg)))
+					}
+					t := a.C.alias(ic.StaticCallee()) + "(" + strings.Join(iargs, ", ") + ")"
+					restore()
+					into[t] = true
+					continue
+				}
+				name = a.C.alias(sc)
+			} else if com.IsInvoke() {
+				name = typeName(com.Value.Type()) + "." + com.Method.Name()
+				recv = a.C.Term(com.Value)
+			} else {
+				name = "dyn:" + a.C.Term(com.Value)
+			}
+			var args []string
+			if recv != "" {
+				args = append(args, recv)
+			}
+			for _, arg := range com.Args {
+				if mi, isMI := arg.(*ssa.MakeInterface); isMI {
+					arg = mi.X
+				}
+				if k, isK := arg.(*ssa.Const); isK && k.Value != nil && k.Value.Kind() == constant.String {
+					args = append(args, "\"…\"")
+					continue
+				}
+				args = append(args, a.C.Term(resolveLocal(arg)))
+			}
+			t := name + "(" + strings.Join(args, ", ") + ")"
+			into[strings.ReplaceAll(t, "(phi((↺ + 1) / -1) + 1)", "phi((↺ + 1) / 0)")] = true
+		}
+	}
+}
+
+func (a *An) currentCalls() map[string][]string {
+	out := map[string][]string{}
+	for _, f := range a.C.FuncSeq {
+		if f.Blocks == nil || (a.C.isNew(f) && len(a.CallSites(f)) > 0) {
+			continue
+		}
+		o := a.C.alias(f)
+		if strings.HasPrefix(o, "(*Conversation).dump") {
+			continue // the debug dump
+		}
+		set := map[string]bool{}
+		a.callsOf(f, 0, map[*ssa.Function]bool{f: true}, set)
+		if len(set) > 0 {
+			out[o] = sortedKeys(set)
+		}
+	}
+	return out
+}
+
+func (a *An) closedCalls(prop string) {
+	R := a.R
+	cur := a.currentCalls()
+	gp := map[string]string{}
+	for f, p := range a.fnProps() {
+		gp[a.C.alias(f)] = p
+	}
+	n := 0
+	for _, fn := range sortedKeys(func() map[string]bool {
+		m := map[string]bool{}
+		for k := range cur {
+			m[k] = true
+		}
+		for k := range frozenCalls {
+			m[k] = true
+		}
+		return m
+	}()) {
+		if !strings.Contains(gp[fn]+" C10", prop) {
+			continue
+		}
+		frozen, known := frozenCalls[fn]
+		if !known {
+			continue // a function that is not in the reviewed tree: reported by the tables of writers, callers and reasons
+		}
+		if _, still := a.C.Fn(fn); !still {
+			continue
+		}
+		n++
+		was := map[string]bool{}
+		for _, x := range frozen {
+			was[x] = true
+		}
+		is := map[string]bool{}
+		for _, x := range cur[fn] {
+			is[x] = true
+		}
+		var added, dropped []string
+		for x := range is {
+			if !was[x] {
+				added = append(added, x)
+			}
+		}
+		for x := range was {
+			if !is[x] {
+				dropped = append(dropped, x)
+			}
+		}
+		sort.Strings(added)
+		sort.Strings(dropped)
+		pos := ""
+		if f, ok := a.C.Fn(fn); ok {
+			pos = a.C.Pos(f.Pos())
+		}
+		R.Check(len(added) == 0 && len(dropped) == 0, "K.calls-closed", "calls|"+fn, "what "+fn+" calls, and with which values, is what was reviewed", pos,
+			"now: "+strings.Join(added, "; ")+" — reviewed: "+strings.Join(dropped, "; "))
+	}
+	R.Extra["functions_with_closed_call_sets"] = n
+}
+
+func genCalls(a *An) {
+	fmt.Println()
+	fmt.Println("var frozenCalls = map[string][]string{")
+	g := a.currentCalls()
+	var keys []string
+	for k := range g {
+		keys = append(keys, k)
+	}
+	sort.Strings(keys)
+	for _, k := range keys {
+		var q []string
+		for _, x := range g[k] {
+			q = append(q, fmt.Sprintf("%q", x))
+		}
+		fmt.Printf("\t%q: {%s},\n", k, strings.Join(q, ", "))
+	}
+	fmt.Println("}")
+}
+
+// threeWay: a test of the result of a three-way comparison (big.Int.Cmp, bytes.Compare: -1, 0 or 1) against -1, 0 or 1
+// reads as the ordering it decides: "== -1" and "< 0" are both "lt", "!= 1" and "<= 0" both "le", and so on.
+func (a *An) threeWay(op token.Token, l, r ssa.Value, truth bool) string {
+	flip := map[token.Token]token.Token{token.LSS: token.GTR, token.GTR: token.LSS, token.LEQ: token.GEQ, token.GEQ: token.LEQ, token.EQL: token.EQL, token.NEQ: token.NEQ}
+	if _, ok := flip[op]; !ok {
+		return ""
+	}
+	call, isCall := l.(*ssa.Call)
+	k, isK := r.(*ssa.Const)
+	if !isCall || !isK {
+		call, isCall = r.(*ssa.Call)
+		k, isK = l.(*ssa.Const)
+		op = flip[op]
+	}
+	if !isCall || !isK || k.Value == nil || k.Value.Kind() != constant.Int {
+		return ""
+	}
+	sc := call.Call.StaticCallee()
+	if sc == nil || !(sc.Name() == "Cmp" && sc.Pkg != nil && sc.Pkg.Pkg.Path() == "math/big" || sc.Name() == "Compare" && sc.Pkg != nil && sc.Pkg.Pkg.Path() == "bytes") {
+		return ""
+	}
+	n, _ := constant.Int64Val(k.Value)
+	// the set of results {-1,0,1} for which "result op n" holds
+	var holds [3]bool
+	for i, v := range []int64{-1, 0, 1} {
+		switch op {
+		case token.EQL:
+			holds[i] = v == n
+		case token.NEQ:
+			holds[i] = v != n
+		case token.LSS:
+			holds[i] = v < n
+		case token.LEQ:
+			holds[i] = v <= n
+		case token.GTR:
+			holds[i] = v > n
+		case token.GEQ:
+			holds[i] = v >= n
+		}
+		if !truth {
+			holds[i] = !holds[i]
+		}
+	}
+	name := map[[3]bool]string{{true, false, false}: "lt", {true, true, false}: "le", {false, true, false}: "eq", {true, false, true}: "ne",
+		{false, false, true}: "gt", {false, true, true}: "ge", {true, true, true}: "always", {false, false, false}: "never"}[holds]
+	return "cmp[" + a.C.Term(call) + "] " + name
 }
